@@ -3,14 +3,26 @@ import JL.Lemmas.TieC
 /-! tie: `split_with_escape`, as translated from the crate's current source, is the model's function - for every input -/
 namespace JL.Tie
 open JL JL.Lemmas.TieC
+set_option linter.unusedSimpArgs false  -- which of the listed facts are used depends on how the source is spelled
 
+/- the loop is the model's `splitLoop` (`for_splitLoop`: ANY body that performs one step of it; the body is found by
+unification, its step equation is the side goal `hf`), then the final push. The step equation is proved by the model's own
+case analysis (escape flag up? backslash? delimiter?) made BEFORE the library calls are unfolded, so that it does not matter
+how the source nests its tests or whether it clears the slice by `clear()` or `mem::take`. -/
 theorem split_with_escape (input : Str) (delim : Char) : Gen.split_with_escape input delim = Data.splitWithEscape input delim := by
   unfold Gen.split_with_escape Data.splitWithEscape
-  simp only [Rs.new_]
-  -- the loop is `splitLoop` (`for_splitLoop`: any body that performs one step of it), then the final push
+  simp only [Rs.new_, Rs.mem_take]
   rw [for_splitLoop delim]
-  · simp [rs]
-  · intro r s e c
-    cases e <;> simp [rs] <;> (repeat' split) <;> simp_all
+  case hf =>
+    intro r s e c
+    cases e with
+    | true => simp [rs]
+    | false =>
+        by_cases h1 : c = '\\'
+        · subst h1; simp [rs, backslash]
+        · by_cases h2 : c = delim
+          · subst h2; simp [rs, backslash, h1]
+          · simp [rs, backslash, h1, h2]
+  all_goals simp [rs]
 
 end JL.Tie
